@@ -75,7 +75,10 @@ def check(prop, tier, seed):
     assumptions, a_log = (None, "")
     if props_built:
         assumptions, a_log = C.print_assumptions(prop, theorems)
-    proof_ok = tr_ok and not gate and props_built and assumptions is not None
+    chk_ok, chk_summary = (True, "not run in the quick tier")
+    if tier == "thorough" and props_built and assumptions is not None:
+        chk_ok, chk_summary = C.coqchk(prop)
+    proof_ok = tr_ok and not gate and props_built and assumptions is not None and chk_ok
     discharged = len(theorems) if proof_ok else 0
     proof_failure = None
     if not proof_ok:
@@ -88,6 +91,8 @@ def check(prop, tier, seed):
             why.append("coq/Props/%s.vo did not build: %s" % (prop, mk_log[-3000:]))
         elif assumptions is None:
             why.append("Print Assumptions failed: " + a_log[-1500:])
+        if not chk_ok:
+            why.append("coqchk: " + chk_summary[-800:])
         if not mk_ok:
             errs = [ln for ln in mk_log.splitlines() if ln.startswith("File ") or "Error" in ln or ln.startswith("make")]
             why.append("make reported: " + " / ".join(errs[:12]) + " ... " + mk_log[-1500:])
@@ -206,7 +211,8 @@ def check(prop, tier, seed):
             "checker_cmd": "cd coq && coq_makefile -f _CoqProject -o Makefile && make (full .vo build; coqc 8.16.1), then coqc on Print Assumptions for: "
             + ", ".join(theorems),
             "trusted_base": TRUSTED_BASE_COMMON + getattr(mod, "TRUSTED", [])
-            + ["Print Assumptions: " + (" || ".join(assumptions) if assumptions else "not available (proof broken)")],
+            + ["Print Assumptions: " + (" || ".join(assumptions) if assumptions else "not available (proof broken)")]
+            + ["coqchk -o CP.Props.%s: %s" % (prop, chk_summary)],
             "theorems": theorems,
             "evaluations": len(cases),
             "distinct_nontrivial": len(nontrivial),
